@@ -104,6 +104,8 @@ class SchedPool(object):
         self.sched = _SCHED
         nproc = a[0] if a else kw.get("processes", kw.get("nodes"))
         self.sched.ev(ev="PoolNew", w=nproc)
+        # the size the real pool would have: decides how map() cuts its task list into chunks
+        self.nproc = nproc or os.cpu_count() or 1
 
     # context manager / lifecycle
     def __enter__(self):
@@ -124,15 +126,31 @@ class SchedPool(object):
     def clear(self):
         pass
 
-    def _run(self, kind, fun, iterable):
+    def _run(self, kind, fun, iterable, chunksize=None):
         tasks = list(iterable)
         n = len(tasks)
         c, order = self.sched.order(n)
         self.sched.ev(ev="Submit", call=c, kind=kind, n=n, fun=getattr(fun, "__name__", str(fun)))
         res = [None] * n
         exc = [None] * n
+        if self.sched.copy and n:
+            # the arguments cross the process boundary CHUNK by chunk, as in multiprocessing.Pool: map() cuts the task list
+            # into about four chunks per worker (imap: one task per chunk unless told otherwise) and pickles each chunk as one
+            # object, so what the tasks of a chunk share (one array handed to every task) is still shared on the other
+            # side, while nothing is shared across chunks or with the parent
+            if chunksize is None:
+                if kind == "map":
+                    chunksize, extra = divmod(n, self.nproc * 4)
+                    chunksize += 1 if extra else 0
+                else:
+                    chunksize = 1
+            chunksize = max(1, int(chunksize))
+            moved = []
+            for i in range(0, n, chunksize):
+                moved += list(_roundtrip(tuple(tasks[i:i + chunksize])))
+            tasks = moved
         for k in order:
-            arg = _roundtrip(tasks[k - 1]) if self.sched.copy else tasks[k - 1]
+            arg = tasks[k - 1]
             self.sched.ev(ev="Start", call=c, k=k)
             try:
                 r = fun(arg)
@@ -143,7 +161,7 @@ class SchedPool(object):
         return c, order, res, exc
 
     def map(self, fun, iterable, chunksize=None):
-        c, order, res, exc = self._run("map", fun, iterable)
+        c, order, res, exc = self._run("map", fun, iterable, chunksize)
         for k, e in enumerate(exc, 1):
             if e is not None:
                 self.sched.ev(ev="Raise", call=c, k=k)
@@ -153,7 +171,7 @@ class SchedPool(object):
         return res
 
     def imap(self, fun, iterable, chunksize=None):
-        c, order, res, exc = self._run("imap", fun, iterable)
+        c, order, res, exc = self._run("imap", fun, iterable, chunksize or 1)
 
         def gen():
             for k in range(1, len(res) + 1):
@@ -165,7 +183,7 @@ class SchedPool(object):
         return _Iter(gen())
 
     def imap_unordered(self, fun, iterable, chunksize=None):
-        c, order, res, exc = self._run("imap_unordered", fun, iterable)
+        c, order, res, exc = self._run("imap_unordered", fun, iterable, chunksize or 1)
 
         def gen():
             for k in order:
@@ -178,7 +196,7 @@ class SchedPool(object):
 
     # ---- the rest of the multiprocessing.Pool interface (a tool is free to use any of it)
     def starmap(self, fun, iterable, chunksize=None):
-        return self.map(_Star(fun), [tuple(t) for t in iterable])
+        return self.map(_Star(fun), [tuple(t) for t in iterable], chunksize)
 
     def apply(self, fun, args=(), kwds=None):
         return self.apply_async(fun, args, kwds).get()
@@ -190,7 +208,7 @@ class SchedPool(object):
         return _Async(self, c, res, exc, single=True, callback=callback, error_callback=error_callback)
 
     def map_async(self, fun, iterable, chunksize=None, callback=None, error_callback=None):
-        c, order, res, exc = self._run("map", fun, iterable)
+        c, order, res, exc = self._run("map", fun, iterable, chunksize)
         return _Async(self, c, res, exc, single=False, callback=callback, error_callback=error_callback)
 
     def starmap_async(self, fun, iterable, chunksize=None, callback=None, error_callback=None):
@@ -341,7 +359,8 @@ class GatedPool(object):
             raise AttributeError(name)
         return getattr(self.pool, name)
 
-    def _run(self, kind, fun, iterable):
+    def _run(self, kind, fun, iterable, chunksize=None):
+        # every task is sent on its own (apply_async): nothing is shared between tasks here
         tasks = list(iterable)
         n = len(tasks)
         if n > self.MAXT:
